@@ -12,9 +12,9 @@ THEOREMS = ['Otel.C19.' + t for t in (
     'disabled_meter_never_streams',
     'pattern_all', 'pattern_literal_iff', 'pattern_matches_iff_lang', 'exact_iff',
     'view_applies_iff_selectors_match', 'matchMeter_aswas_witness', 'findViews_spec',
-    'view_stream_exported_partial', 'view_shadowed_witness', 'view_shapes_stream', 'view_shapes_stream_filter_partial',
+    'storage_registry_per_stream', 'view_stream_exported', 'exported_iff', 'exported_count', 'view_shadowed_aswas_witness',
+    'same_stream_name_both_exported', 'first_handle_registers_streams', 'second_handle_no_new_stream', 'handle_twice', 'view_shapes_stream', 'view_shapes_stream_filter_partial',
     'view_filter_ignored_witness', 'view_unit_irrelevant', 'histogram_defaults', 'unmatched_gets_type_default', 'default_aggregation_table',
-    'exported_at_most_one',
     'configurator_first_match', 'configurator_default', 'disabled_scope_silent', 'others_unaffected',
     'same_identity_same_instance', 'instance_config_fixed')]
 HARNESSES = [Harness('s_c19', ['harness/s_c19.cc'],
@@ -35,7 +35,7 @@ RULE = ('validators: every byte value in first and in later position, lengths 0.
 TRUSTED = ['std::regex (its result is compared with the translated predicate on every generated string)',
            'name patterns are modelled for the fragment literal, ".", "x*", ".*" only; generators stay inside it',
            'memory safety of the C++ is shown by ASan/UBSan runs on exact-size buffers, not by the theorems']
-ASSUMPTIONS = ['instrument names within one meter are distinct (a second instrument of the same name replaces the first one\'s storage: D09, C06)',
+ASSUMPTIONS = ['a second handle of an instrument (same name, type, value type) has the same unit and description, and observable instruments have one handle (C17)',
                'unit characters: the source regex admits 0x01-0x7f; NUL is not counted as an ASCII "character" (the uncompiled non-regex variant would accept it)',
                'ABI v1: no synchronous gauge; tracer/meter identity is (name, version, schema url), logger identity adds the logger name and the scope attributes']
 
@@ -93,7 +93,8 @@ def exact_matches(sel, s):
 
 
 def expected_streams(line):
-    """the property, per instrument: list of (instrument index, [stream tuples], details)"""
+    """the property, per instrument identity (name, type, value type): list of
+       (first handle index, instrument, matching views, [stream tuples]); stream = (n, d, u, type, agg, bounds, keys, values)"""
     t = line.split()
     ops = split_ops(t, 1)
     m = ops[0]
@@ -106,11 +107,21 @@ def expected_streams(line):
                               name=unhx(op[7]), desc=unhx(op[8]), agg=op[10], flt=op[11],
                               bounds=None if op[12] == '-' else [int(x) for x in op[12].split(',')]))
         else:
-            instrs.append(dict(type=op[1], name=unhx(op[3]), unit=unhx(op[4]), desc=unhx(op[5])))
+            instrs.append(dict(type=op[1], vt=op[2], name=unhx(op[3]), unit=unhx(op[4]), desc=unhx(op[5])))
     res = []
+    groups = {}
     for idx, i in enumerate(instrs):
         if not en or not spec_valid_name(i['name']) or not spec_valid_unit(i['unit']):
             res.append((idx, i, [], []))
+            continue
+        ident = (i['name'], i['type'], i['vt'])
+        if ident in groups:
+            # a second handle of the same instrument records into the streams the first one registered
+            first = groups[ident]
+            if (instrs[first[0]]['unit'], instrs[first[0]]['desc']) != (i['unit'], i['desc']):
+                first[4].append('conflicting-duplicate')
+            for st in first[3]:
+                st[7].append(100 + idx)
             continue
         matching = [v for v in views if v['type'] == i['type'] and pattern_matches(v['pat'], i['name']) and exact_matches(v['unit'], i['unit'])
                     and exact_matches(v['mn'], mn) and exact_matches(v['mv'], mv) and exact_matches(v['ms'], ms)]
@@ -125,32 +136,35 @@ def expected_streams(line):
             else:
                 allowed = set(v['flt'].split(','))
                 keys = [k for k in ('61', '62') if k in allowed]
-            if agg == 'hist':
-                # the view's configured bucket boundaries (else the defaults); the one measurement is counted in its bucket
-                bounds = v['bounds'] if v['bounds'] is not None else DEFAULT_BOUNDS
-                agg = 'hist' + (''.join(f':{b}' for b in bounds) if bounds != DEFAULT_BOUNDS else '') + f'@{sum(1 for b in bounds if b < 100 + idx)}'
-            streams.append((hx(v['name'] or i['name']), hx(v['desc'] or i['desc']), hx(i['unit']), i['type'], agg, tuple(keys),
-                            '-' if agg == 'drop' else str(100 + idx)))
-        res.append((idx, i, matching, streams))
+            bounds = (v['bounds'] if v['bounds'] is not None else DEFAULT_BOUNDS) if agg == 'hist' else None
+            streams.append([hx(v['name'] or i['name']), hx(v['desc'] or i['desc']), hx(i['unit']), i['type'], agg, bounds, tuple(keys), [100 + idx]])
+        entry = [idx, i, matching, streams, []]
+        groups[ident] = entry
+        res.append(entry)
     return res
 
 
-def show_stream(s):
-    return f'n={s[0]},d={s[1]},u={s[2]},t={s[3]},a={s[4]},k={"+".join(s[5]) if s[5] else "none"},v={s[6]}'
+def show_stream(s, keys=None):
+    n, d, u, ty, agg, bounds, ks, values = s
+    ks = ks if keys is None else keys
+    a = agg
+    if agg == 'hist':
+        # the view's configured bucket boundaries (else the defaults); every measurement is counted in its bucket
+        a = 'hist' + (''.join(f':{b}' for b in bounds) if bounds != DEFAULT_BOUNDS else '')
+        a += ''.join(f'@{bi}' for bi in sorted({sum(1 for b in bounds if b < v) for v in values}))
+    v = '-' if agg == 'drop' else str(values[-1] if agg == 'last' else sum(values))
+    return f'n={n},d={d},u={u},t={ty},a={a},k={"+".join(ks) if ks else "none"},v={v}'
 
 
 def variants(exp):
-    """expected output under the property, and under the two known deviations"""
-    def render(sel_last, unfiltered_obs):
+    """expected output under the property, and under the known deviation D22 (filter ignored for observables)"""
+    def render(unfiltered_obs):
         out = []
-        for idx, i, matching, streams in exp:
-            ss = streams[-1:] if sel_last else streams
-            for s in ss:
-                if unfiltered_obs and i['type'] in OBSERVABLE:
-                    s = s[:5] + (('61', '62'),) + s[6:]
-                out.append(show_stream(s))
+        for e in exp:
+            for s in e[3]:
+                out.append(show_stream(s, ('61', '62') if unfiltered_obs and e[1]['type'] in OBSERVABLE else None))
         return '[' + '|'.join(sorted(out)) + ']'
-    return {(a, b): render(a, b) for a in (False, True) for b in (False, True)}
+    return {b: render(b) for b in (False, True)}
 
 
 def spec_sc(line):
@@ -199,21 +213,22 @@ def oracle(case, out):
         if 'MISMATCH' in out:
             return ('stream-carries-its-meter-scope-and-provider-resource', out)
         exp = expected_streams(case.line)
+        if any(len(e) > 4 and e[4] for e in exp):
+            return ('bad-case', 'a second handle with another unit/description: outside the property')
         var = variants(exp)
-        if out == var[(False, False)]:
+        if out == var[False]:
             return None
-        inert = [i for idx, i, m, s in exp if not s]
-        body = out
-        for idx, i, m, s in exp:
-            if not s and (f'v={100 + idx}' in body):
+        for e in exp:
+            if not e[3] and re.search(rf'v={100 + e[0]}\b', out):
                 return ('invalid-name-or-unit-or-disabled-meter-never-streams', out)
-        if out == var[(True, False)]:
-            return ('every-matching-view-yields-its-stream', f'got {out} want {var[(False, False)]}')
-        if out == var[(False, True)]:
-            return ('view-attribute-filter-shapes-stream', f'got {out} want {var[(False, False)]}')
-        if out == var[(True, True)]:
-            return ('every-matching-view-yields-its-stream', f'(and filter ignored for observables) got {out} want {var[(False, False)]}')
-        return ('view-shapes-stream-and-nothing-else', f'got {out} want {var[(False, False)]}')
+        if out == var[True]:
+            return ('view-attribute-filter-shapes-stream', f'got {out} want {var[False]}')
+        # which clause: a stream count that differs means a view that applies has no stream (or one that does not has one)
+        n_got = 0 if out == '[]' else out.count('|') + 1
+        n_want = sum(len(e[3]) for e in exp)
+        if n_got != n_want:
+            return ('every-matching-view-yields-its-stream', f'{n_got} streams, want {n_want}: got {out} want {var[False]}')
+        return ('view-shapes-stream-and-nothing-else', f'got {out} want {var[False]}')
     if t[0] == 'sc':
         exp = spec_sc(case.line)
         if not exp:
@@ -242,8 +257,6 @@ def signature(case, out, clause):
     if clause == 'no-out-of-bounds-read-or-crash':
         kind = ':'.join(out.split()[1].split(':')[:2]) if len(out.split()) > 1 else 'crash'
         return f'{clause}/{t[0]}/{kind}'
-    if clause == 'every-matching-view-yields-its-stream':
-        return clause + '/shadowed-by-later-matching-view'
     if clause == 'view-attribute-filter-shapes-stream':
         return clause + '/observable-instrument'
     if t[0] == 'val2':
@@ -291,7 +304,12 @@ def corpus():
     for it in ('oc', 'og', 'ou'):
         c(f'mv m {hx(b"m")} - - 1 ; v {it} {hx(b"*")} - - - - - - - hist * 1,2,3,4,5,6,7,8,9,10,11,12,13,14,15,16,17,18,19,200 ; i {it} l {hx(b"x")} - -', 'D63')
         c(f'mv m {hx(b"m")} - - 1 ; v {it} {hx(b"*")} - - - - - - - hist * 10,200 ; i {it} d {hx(b"x")} - -', 'D63')
-    # D09 / D22 (findings)
+    # D09 (fixed in 8d47170): every applying view yields its stream, also two views that rename to the same stream name;
+    # a second handle records into the streams of the first; the same name with another type is another instrument
+    c(f'mv m {hx(b"m")} - - 1 ; v c {hx(b"*")} - - - - {hx(b"same")} - - sum * - ; v c {hx(b"reqs")} - - - - {hx(b"same")} - - last * - ; i c l {hx(b"reqs")} - -', 'D09')
+    c(f'mv m {hx(b"m")} - - 1 ; v c {hx(b"*")} - - - - {hx(b"first")} - - sum * - ; v c {hx(b"reqs")} - - - - - - - hist {hx(b"a")} - ; i c l {hx(b"reqs")} - - ; i c l {hx(b"reqs")} - -', 'D09')
+    c(f'mv m {hx(b"m")} - - 1 ; i c l {hx(b"x")} - - ; i c d {hx(b"x")} - - ; i h l {hx(b"x")} - - ; i oc l {hx(b"x")} - -', 'D09')
+    # D09 (witness) / D22 (finding)
     c(f'mv m {hx(b"m")} - - 1 ; v c {hx(b"*")} - - - - {hx(b"first")} - - sum * - ; v c {hx(b"reqs")} - - - - {hx(b"second")} - - sum * - ; i c l {hx(b"reqs")} - -', 'D09')
     c(f'mv m {hx(b"m")} - - 1 ; v oc {hx(b"*")} - - - - - - - def {hx(b"a")} - ; i oc l {hx(b"obs")} - -', 'D22')
     return out
@@ -394,8 +412,12 @@ def rand_view(rng, meter, target=None):
     return f'v {it} {hx(pat)} {hx(unit)} {hx(mn)} {hx(mv)} {hx(ms)} {hx(vname)} {hx(vdesc)} {hx(vunit)} {agg} {flt} {hb}'
 
 
+D22_KEEP = 12
+
+
 def gen_mv(rng, big):
     out = []
+    d22 = []
     for _ in range(100000 if big else 10000):
         meter = (rng.choice(MNAMES), rng.choice(VERS), rng.choice(SCHEMAS))
         en = 0 if rng.random() < 0.05 else 1
@@ -421,23 +443,59 @@ def gen_mv(rng, big):
             desc = rng.choice([b'', b'instrument description'])
             instrs.append(f'i {it} {rng.choice("ld")} {hx(name)} {hx(unit)} {hx(desc)}')
             targets.append((it, name, unit))
+        # further handles: an exact second handle of a synchronous instrument (records into the same streams), or the same name
+        # with another type / value type (its own streams)
+        r = rng.random()
+        if r < 0.15:
+            k = rng.randrange(len(instrs))
+            if targets[k][0] not in OBSERVABLE:
+                instrs.append(instrs[k]); tags.append('second-handle')
+        elif r < 0.25:
+            k = rng.randrange(len(instrs))
+            parts = instrs[k].split(' ')
+            if rng.random() < 0.5:
+                parts[1] = rng.choice([x for x in ITYPES if x != parts[1]])
+            else:
+                parts[2] = 'd' if parts[2] == 'l' else 'l'
+            if (parts[1], parts[2], parts[3]) not in {tuple(x.split(' ')[1:4]) for x in instrs}:
+                instrs.append(' '.join(parts)); targets.append((parts[1], unhx(parts[3]), unhx(parts[4]))); tags.append('same-name-other-type')
+        # one handle per observable instrument; a second synchronous handle only as an exact copy
+        seen, keep = {}, []
+        for x in instrs:
+            p_ = x.split(' ')
+            ident = (p_[1], p_[2], p_[3])
+            if ident in seen and (p_[1] in OBSERVABLE or seen[ident] != x):
+                continue
+            seen.setdefault(ident, x)
+            keep.append(x)
+        instrs = keep
         views = [rand_view(rng, meter, rng.choice(targets) if rng.random() < 0.8 else None) for _ in range(nv)]
         tags.append(f'views-{nv}')
         line = 'mv ' + ' ; '.join(ops + views + instrs)
-        nm = max((len(m) for _, _, m, _ in expected_streams(line)), default=0)
+        exp = expected_streams(line)
+        nm = max((len(e[2]) for e in exp), default=0)
         tags.append(f'max-matching-views-{min(nm, 3)}')
+        var = variants(exp)
+        if var[False] != var[True]:
+            # the case exhibits the known finding D22 (filter on an observable instrument).  vcore stops evaluating a run after
+            # 40 oracle failures, known findings included: keep a handful as evidence that D22 still reproduces, at the end
+            if len(d22) < D22_KEEP:
+                d22.append(C(line, *tags, 'exhibits-D22'))
+            continue
         out.append(C(line, *tags))
     # all instrument types x all aggregations x filters, single view
     for it in ITYPES:
         for agg in AGGS:
             for flt in ('*', 'e', '61'):
+                if it in OBSERVABLE and flt != '*':
+                    continue          # D22 (known finding): represented by the corpus case and the D22_KEEP cases above
                 out.append(C(f'mv m {hx(b"m")} - - 1 ; v {it} {hx(b"*")} - - - - - - - {agg} {flt} - ; i {it} l {hx(b"x")} - -', 'mv', 'type-x-agg-x-filter'))
                 out.append(C(f'mv m {hx(b"m")} - - 1 ; v {it} {hx(b"*")} - - - - {hx(b"vn")} {hx(b"vd")} {hx(b"vu")} {agg} {flt} - ; i {it} d {hx(b"x")} {hx(b"ms")} {hx(b"d")}', 'mv', 'type-x-agg-x-filter'))
             for hb in BOUNDS[3:]:
                 out.append(C(f'mv m {hx(b"m")} - - 1 ; v {it} {hx(b"*")} - - - - - - - {agg} * {hb} ; i {it} l {hx(b"x")} - - ; i {it} d {hx(b"y")} - -', 'mv', 'type-x-agg-x-bounds'))
         for it2 in ITYPES:
             out.append(C(f'mv m {hx(b"m")} - - 1 ; v {it} {hx(b"*")} - - - - {hx(b"vn")} - - def * - ; i {it2} l {hx(b"x")} - -', 'mv', 'type-x-type'))
-    return out
+    return out, d22
 
 
 def gen_sc(rng, big):
@@ -475,7 +533,8 @@ def generate(rng, tier):
     vals = gen_val(rng, big)
     # the same validator strings go to the hand-written variants in the second TU
     vals2 = [Case('val2' + c.line[3:], 's_c19b', ('val2',) + c.tags[1:]) for c in vals]
-    return vals + vals2 + gen_mv(rng, big) + gen_sc(rng, big)
+    mv, d22 = gen_mv(rng, big)
+    return vals + vals2 + mv + gen_sc(rng, big) + d22
 
 
 LEVEL_TEXT = ('Lean 4 theorems over executable models of instrument_metadata_validator.cc, the view registry / predicates / selectors, '
@@ -486,9 +545,8 @@ LEVEL_TEXT = ('Lean 4 theorems over executable models of instrument_metadata_val
               'Regexes, the default-aggregation table and the matching rules are re-extracted from the source each run; the models are tied to '
               'the code by a differential run through a real MeterProvider / TracerProvider / LoggerProvider under ASan/UBSan.')
 LEVEL_NOTE = ('Trusted: Lean kernel; axioms propext/Quot.sound/Classical.choice at most; tools/gen_c19.py; harness and generators; std::regex. '
-              'Partial: (D09) of several views matching one instrument only the last registered one is exported and (D22) a view\'s attribute '
-              'filter is ignored for observable instruments - modelled as the code is, proved as *_partial theorems with kernel-checked '
-              'witnesses, reported as known findings; name patterns only for the fragment literal/"."/"x*"/".*"; histogram boundaries only strictly increasing integer lists; '
+              'Partial: (D22) a view\'s attribute filter is ignored for observable instruments - modelled as the code is, proved as a '
+              '*_partial theorem with a kernel-checked witness, reported as a known finding; name patterns only for the fragment literal/"."/"x*"/".*"; histogram boundaries only strictly increasing integer lists; '
               'out-of-bounds reads are excluded by sanitizer runs on exact-size buffers, not by a theorem.')
 DESIGN_REF = 'DESIGN.md section 4, C19'
 TECHNIQUE = 'Lean 4 proof + differential correspondence'
